@@ -51,8 +51,10 @@ class RandomsBase(HandlesDataChunk):
             has_redshifts=redshifts is not None,
         )
         self.reseed(seed)
-        self.weights = weights
-        self.redshifts = redshifts
+        # rows are drawn by position: convert inputs that index by label (e.g.
+        # columns of a sorted or filtered data frame) or not at all (lists)
+        self.weights = None if weights is None else np.asarray(weights)
+        self.redshifts = None if redshifts is None else np.asarray(redshifts)
         self.data_size = self.get_data_size()
 
     def get_data_size(self) -> int:
